@@ -221,6 +221,27 @@ func Supervise(self string, chk *Check, tier string, seed int64) int {
 					os.Remove(file)
 				}
 			}
+			if !found && chk.SingleThread && len(marks) == 1 && marks[0].Desc == "" {
+				// a single-threaded worker is deterministic: does the death come back when its whole
+				// trajectory up to the marked case is run again (state carried across calls)?
+				m := marks[0]
+				cs, _ := json.Marshal(map[string]any{"idx": m.Idx})
+				v := Violation{Property: chk.ID, Sig: crashSig(stderr), Space: m.Space, Case: cs, Human: fmt.Sprintf("%s case %d after every case worker %d of %d ran before it (the case alone does not kill a fresh process: state carried across calls)", m.Space, m.Idx, cr.shard, procs), Observed: "process terminated:\n" + stderr, Allowed: "every call returns", Crash: true, Tier: tier, ShardReplay: &ShardReplay{Shard: cr.shard, Shards: procs, Skip: cr.skip}}
+				file := writeReplay(&v, 0)
+				again := 0
+				for i := 0; i < 2; i++ {
+					if rep, crashed := replayInFresh(self, file); rep && crashed {
+						again++
+					}
+				}
+				if again == 2 {
+					found = true
+					crashViol = append(crashViol, v)
+					cr.skip = append(cr.skip, fmt.Sprintf("%s#%d", m.Space, m.Idx))
+				} else {
+					os.Remove(file)
+				}
+			}
 			if !found {
 				fmt.Fprintf(os.Stderr, "HARNESS-NONDETERMINISM: child %d died but no marked case reproduces the death alone:\n%s\n", cr.shard, stderr)
 				return 3
